@@ -281,6 +281,92 @@ def _unrolled(lp, tables):
     return tail
 
 
+def _pure(e):
+    if isinstance(e, (ast.Name, ast.Constant)):
+        return True
+    if isinstance(e, ast.Attribute):
+        return _pure(e.value)
+    if isinstance(e, ast.Tuple):
+        return all(_pure(x) for x in e.elts)
+    return False
+
+
+def _plain_idioms(tree):
+    """Two dictionary idioms in their plain spelling:
+
+    * statement ``d.setdefault(k, v)`` (result unused, k and v side-effect
+      free)  ->  ``if k not in d: d[k] = v``
+    * ``try: x = m[k]`` / ``except KeyError: <never falls through>``
+      ->  ``if k not in m: <handler>`` then ``x = m[k]``"""
+    for node in list(ast.walk(tree)):
+        for fld in ('body', 'orelse', 'finalbody'):
+            blk = getattr(node, fld, None)
+            if not (isinstance(blk, list) and blk and isinstance(
+                    blk[0], ast.stmt)):
+                continue
+            i = 0
+            while i < len(blk):
+                st = blk[i]
+                if isinstance(st, ast.Expr) and isinstance(
+                        st.value, ast.Call) and isinstance(
+                            st.value.func, ast.Attribute) and \
+                        st.value.func.attr == 'setdefault' and isinstance(
+                            st.value.func.value, ast.Name) and len(
+                                st.value.args) == 2 and not \
+                        st.value.keywords and all(
+                            _pure(a) for a in st.value.args):
+                    d = st.value.func.value
+                    k, v = st.value.args
+                    test = ast.Compare(left=_plain_copy(k),
+                                       ops=[ast.NotIn()],
+                                       comparators=[ast.Name(
+                                           id=d.id, ctx=ast.Load())])
+                    store = ast.Assign(targets=[ast.Subscript(
+                        value=ast.Name(id=d.id, ctx=ast.Load()),
+                        slice=_plain_copy(k), ctx=ast.Store())], value=v)
+                    new = ast.If(test=test, body=[store], orelse=[])
+                    for x in (test, store, new):
+                        ast.copy_location(x, st)
+                    blk[i] = new
+                elif isinstance(st, ast.Try) and not st.orelse and not \
+                        st.finalbody and len(st.body) == 1 and len(
+                            st.handlers) == 1 and isinstance(
+                                st.body[0], ast.Assign) and isinstance(
+                                    st.body[0].value, ast.Subscript) and \
+                        _pure(st.body[0].value.value) and _pure(
+                            st.body[0].value.slice) and \
+                        st.handlers[0].name is None and \
+                        st.handlers[0].type is not None and ast.unparse(
+                            st.handlers[0].type) == 'KeyError' and not \
+                        _falls_through(st.handlers[0].body):
+                    sub = st.body[0].value
+                    test = ast.Compare(left=_plain_copy(sub.slice),
+                                       ops=[ast.NotIn()],
+                                       comparators=[_plain_copy(sub.value)])
+                    new = ast.If(test=test, body=st.handlers[0].body,
+                                 orelse=[])
+                    ast.copy_location(test, st)
+                    ast.copy_location(new, st)
+                    blk[i:i + 1] = [new, st.body[0]]
+                    i += 1
+                i += 1
+
+
+def _negate(t):
+    """``not t`` in its plainest spelling: double negation is removed and
+    the exact complements is / is not, in / not in, == / != are flipped."""
+    if isinstance(t, ast.UnaryOp) and isinstance(t.op, ast.Not):
+        return t.operand
+    flip = {ast.Is: ast.IsNot, ast.IsNot: ast.Is, ast.In: ast.NotIn,
+            ast.NotIn: ast.In, ast.Eq: ast.NotEq, ast.NotEq: ast.Eq}
+    if isinstance(t, ast.Compare) and len(t.ops) == 1 and type(
+            t.ops[0]) in flip:
+        return ast.copy_location(ast.Compare(
+            left=t.left, ops=[flip[type(t.ops[0])]()],
+            comparators=t.comparators), t)
+    return ast.copy_location(ast.UnaryOp(op=ast.Not(), operand=t), t)
+
+
 def normalise(tree):
     """Canonical statement shapes, so that rules see one spelling of
     equivalent control flow (positions are kept; nothing is executed):
@@ -291,8 +377,10 @@ def normalise(tree):
        never falls through becomes a guard on the negated test)
     3. ``if a: if b: X`` (no else on either, the inner if alone)
                                           ->  ``if a and b: X``
+    4. in a loop body ``if c: continue`` + rest  ->  ``if not c: rest``
     Each step is semantics-preserving for any program."""
     _unroll_table_loops(tree)
+    _plain_idioms(tree)
     changed = True
     rounds = 0
     while changed and rounds < 50:
@@ -326,8 +414,7 @@ def normalise(tree):
                                 st.orelse) and not elif_chain and \
                                 _falls_through(st.body):
                             # else branch is the guard
-                            st.test = ast.copy_location(ast.UnaryOp(
-                                op=ast.Not(), operand=st.test), st.test)
+                            st.test = _negate(st.test)
                             rest = st.body
                             st.body = st.orelse
                             st.orelse = []
@@ -349,8 +436,20 @@ def normalise(tree):
                             st.body = inner.body
                             changed = True
                     i += 1
-            if isinstance(node, ast.Try):
-                pass
+            # 4. in a loop body, ``if c: continue`` followed by the rest of
+            # the body  ->  ``if not c: <rest>``
+            if isinstance(node, (ast.For, ast.While)):
+                blk = node.body
+                for i, st in enumerate(blk):
+                    if isinstance(st, ast.If) and not st.orelse and len(
+                            st.body) == 1 and isinstance(
+                                st.body[0], ast.Continue) and \
+                            i + 1 < len(blk):
+                        st.test = _negate(st.test)
+                        st.body = blk[i + 1:]
+                        del blk[i + 1:]
+                        changed = True
+                        break
     ast.fix_missing_locations(tree)
     return tree
 
@@ -416,6 +515,17 @@ class Program(object):
         self.classes = {}          # dotted -> Class
         self._digest = hashlib.sha256()
         self._load()
+        if self.relocate and os.environ.get('PSA_NO_INLINE') != '1':
+            from psa import inline
+            for m in self.modules.values():
+                self._index_imports(m)
+            k = inline.untuple_results(
+                {mn: m.tree for mn, m in self.modules.items()},
+                {mn: m.imports for mn, m in self.modules.items()})
+            for m in self.modules.values():
+                m.imports = {}
+                if k:
+                    m._link()
         self._index()
         self.inlined = {}          # module -> number of expansions
         if self.relocate and os.environ.get('PSA_NO_INLINE') != '1':
@@ -624,6 +734,14 @@ class Program(object):
                     and not getattr(f, 'relocated_from', None):
                 new.setdefault(f.module.name, set()).add(f.name)
         done = False
+        ext = set()
+        for m in self.modules.values():
+            for n in ast.walk(m.tree):
+                if isinstance(n, ast.Attribute):
+                    ext.add(n.attr)
+                elif isinstance(n, ast.ImportFrom):
+                    ext.update(al.name for al in n.names)
+        inline._EXTERNAL[0] = ext
         cms = {mn: inline.module_cms(self.modules[mn].tree, names)
                for mn, names in new.items()}
         cms = {mn: c for mn, c in cms.items() if c}
